@@ -2,10 +2,15 @@
    guards, rename; the copy-then-remove fall-back is dead code when the back end's rename is POSIX) refine R. *)
 From Coq Require Import List ZArith Bool Lia Arith.
 Import ListNotations.
-From GU Require Import C06.Model C06.Proofs C06.ProofsWf C06.Vfs C06.ProofsVfsRm.
+From GU Require Import C06.Model C06.Facts C06.Proofs C06.ProofsWf C06.Vfs C06.ProofsVfsRm.
 Local Open Scope Z_scope.
 
 Ltac inv_o H := first [discriminate H | (inversion H; subst; clear H)].
+
+(* turn a condition on the record of facts (copy_ok fa = true, ...) into literal field values *)
+Ltac facts_literal fa H :=
+  destruct fa; unfold copy_ok, move_ok, write_ok, handles_ok, paths_ok, fallback_ok in H; simpl in H;
+  repeat (apply andb_true_iff in H; destruct H as [H ?]); subst; simpl.
 
 Lemma m_exists_spec t p : fst (m_exists t p) = exists_ t p.
 Proof. unfold m_exists, b_stat, exists_. destruct (lookup t p) as [[|]|]; reflexivity. Qed.
@@ -49,11 +54,12 @@ Local Arguments path_eqb : simpl never.
 
 (* ---------- Copy of a file ---------- *)
 
-Lemma m_copy_file_refines t s str d dtr r t' f :
+Lemma m_copy_file_refines fa t s str d dtr r t' f :
+  copy_ok fa = true ->
   wf t -> is_dir t s = false -> r_copy t (P s str) (P d dtr) = Out r t' ->
-  exists h, m_copy (S f) t s str d dtr = Some (r, t', h).
+  exists h, m_copy fa (S f) t s str d dtr = Some (r, t', h).
 Proof.
-  intros W Nds. unfold r_copy, parg_eqb. simpl.
+  intros OK W Nds. facts_literal fa OK. unfold r_copy, parg_eqb. simpl.
   destruct (path_eqb s d && Bool.eqb str dtr); [intros H; inv_o H; eauto|].
   destruct (arg_conflict t s str) eqn:Ca; [discriminate|]. destruct (arg_conflict t d dtr) eqn:Cd; [discriminate|]. simpl.
   destruct (arg_conflict_false _ _ _ Cd) as [Tfd _].
@@ -106,10 +112,11 @@ Local Arguments m_copy : simpl never.
 Lemma is_file_not_dir t p : is_file t p = true -> is_dir t p = false.
 Proof. unfold is_file, is_dir. destruct (lookup t p) as [[|]|]; auto; discriminate. Qed.
 
-Lemma m_copytofile_refines t s str d dtr r t' f :
-  wf t -> r_copytofile t (P s str) (P d dtr) = Out r t' -> exists h, m_copytofile (S f) t s str d dtr = Some (r, t', h).
+Lemma m_copytofile_refines fa t s str d dtr r t' f :
+  copy_ok fa = true ->
+  wf t -> r_copytofile t (P s str) (P d dtr) = Out r t' -> exists h, m_copytofile fa (S f) t s str d dtr = Some (r, t', h).
 Proof.
-  intros W. unfold r_copytofile, m_copytofile.
+  intros OK W. unfold r_copytofile, m_copytofile.
   destruct (arg_conflict t s str || is_dir t s); [discriminate|].
   destruct (m_isfile_pair t s) as [h1 ->]. destruct (is_file t s) eqn:Fs; simpl; [|intros H; inv_o H; eauto].
   destruct (arg_conflict t d dtr || is_dir t d) eqn:C; [discriminate|]. apply orb_false_iff in C as [_ Nd].
@@ -117,20 +124,21 @@ Proof.
   destruct (exists_ t d) eqn:Ex; simpl.
   - assert (Fd : is_file t d = true).
     { unfold exists_, is_dir, is_file in *. destruct (lookup t d) as [[|]|]; auto; discriminate. }
-    rewrite Fd. simpl. intros H. destruct (m_copy_file_refines t s str d dtr r t' f W (is_file_not_dir _ _ Fs) H) as [h ->]. eauto.
+    rewrite Fd. simpl. intros H. destruct (m_copy_file_refines fa t s str d dtr r t' f OK W (is_file_not_dir _ _ Fs) H) as [h ->]. eauto.
   - destruct dtr; [intros H; inv_o H; eauto|].
-    intros H. destruct (m_copy_file_refines t s str d false r t' f W (is_file_not_dir _ _ Fs) H) as [h ->]. eauto.
+    intros H. destruct (m_copy_file_refines fa t s str d false r t' f OK W (is_file_not_dir _ _ Fs) H) as [h ->]. eauto.
 Qed.
 
-Lemma m_copytodir_file_refines t s str d dtr r t' f :
+Lemma m_copytodir_file_refines fa t s str d dtr r t' f :
+  copy_ok fa = true ->
   wf t -> is_dir (mkdirp t d) s = false -> r_copytodir t (P s str) (P d dtr) = Out r t' ->
-  exists h, m_copytodir (S f) t (P s str) d dtr = Some (r, t', h).
+  exists h, m_copytodir fa (S f) t (P s str) d dtr = Some (r, t', h).
 Proof.
-  intros W Nd. unfold r_copytodir, m_copytodir.
+  intros OK W Nd. unfold r_copytodir, m_copytodir.
   destruct (through_file t d) eqn:Tf; [discriminate|]. destruct (is_file t d) eqn:Nf; [discriminate|]. simpl.
   destruct (arg_conflict t s str); [discriminate|].
   destruct (m_mkdir3_ok t d W Tf Nf) as [h1 E]. unfold m_mkdir3 in E. inversion E as [[E1 E2 E3]]. rewrite E1, E2.
-  intros H. destruct (m_copy_file_refines (mkdirp t d) s str d dtr r t' f (wf_mkdirp _ _ W Tf Nf) Nd H) as [h ->]. eauto.
+  intros H. destruct (m_copy_file_refines fa (mkdirp t d) s str d dtr r t' f OK (wf_mkdirp _ _ W Tf Nf) Nd H) as [h ->]. eauto.
 Qed.
 
 (* ---------- Move ---------- *)
@@ -138,10 +146,32 @@ Qed.
 Lemma m_empty_b_dir' t p : lookup t p = Some D -> m_empty_b t p = match children t p with [] => true | _ => false end.
 Proof. intros H. unfold m_empty_b, b_stat, b_readdirnames. now rewrite H. Qed.
 
-Lemma m_move_refines t n s str d dtr r t' f :
-  wf t -> r_move t (P (n :: s) str) (P d dtr) = Out r t' -> exists h, m_move (S f) t (n :: s) str d dtr = Some (r, t', h).
+Lemma m_move_guards_relevant fa gs t s str d dtr : forall st,
+  m_move_guards fa gs t s str d dtr st = m_move_guards fa (relevant gs) t s str d dtr st.
 Proof.
-  intros W. unfold r_move, m_move, parg_eqb.
+  induction gs as [|g gs IH]; intros st; [reflexivity|]. destruct g; simpl.
+  - destruct (path_eqb s d && Bool.eqb str dtr); auto.
+  - apply IH.
+  - destruct (m_exists t s) as [es h1]. destruct (negb es); auto.
+  - destruct (m_exists t d) as [ed h2]. auto.
+  - destruct (path_eqb s (ms_target st)); auto.
+  - destruct (f_move_within_plain fa && is_prefix s (ms_target st)); auto.
+    destruct (negb (f_move_within_plain fa) && negb (path_eqb (ms_target st) d) && is_prefix s (ms_target st)); auto.
+  - destruct (m_exists t (ms_target st)) as [et h3].
+    destruct (is_dir_b t s && et && is_dir_b t (ms_target st) && negb (m_empty_b t (ms_target st))); auto.
+Qed.
+
+Local Arguments m_move_raw : simpl never.
+Local Arguments lookup : simpl never.
+Local Arguments exists_ : simpl never.
+Local Arguments is_dir : simpl never.
+
+Lemma m_move_refines fa t n s str d dtr r t' f :
+  move_ok fa = true ->
+  wf t -> r_move t (P (n :: s) str) (P d dtr) = Out r t' -> exists h, m_move fa (S f) t (n :: s) str d dtr = Some (r, t', h).
+Proof.
+  intros OK W. unfold move_ok in OK. apply andb_true_iff in OK as [G Pl]. apply mguards_eqb_eq in G.
+  unfold r_move, m_move, parg_eqb. rewrite m_move_guards_relevant, G. simpl. rewrite Pl. simpl.
   destruct (path_eqb (n :: s) d && Bool.eqb str dtr); [intros H; inv_o H; eauto|].
   destruct (arg_conflict t (n :: s) str) eqn:Ca; [discriminate|]. destruct (arg_conflict t d dtr) eqn:Cd; [discriminate|]. simpl orb.
   destruct (arg_conflict_false _ _ _ Cd) as [Tfd _].
@@ -149,12 +179,12 @@ Proof.
   destruct (lookup t (n :: s)) as [e|] eqn:L.
   2:{ assert (Ex0 : exists_ t (n :: s) = false) by (unfold exists_; now rewrite L). rewrite Ex0. simpl. intros H; inv_o H; eauto. }
   assert (Ex0 : exists_ t (n :: s) = true) by (unfold exists_; now rewrite L). rewrite Ex0. simpl negb. cbv iota.
-  destruct (m_exists_pair t d) as [h2 ->]. change (is_dir_b t d) with (is_dir t d).
+  destruct (m_exists_pair t d) as [h2 ->]. change (is_dir_b t d) with (is_dir t d). simpl.
   set (dst := if is_dir t d then d ++ [base (n :: s)] else if negb (exists_ t d) && dtr then d ++ [base (n :: s)] else d).
   assert (Tg : (if (if exists_ t d then is_dir t d else dtr) then d ++ [base (n :: s)] else d) = dst).
   { unfold dst. destruct (is_dir t d) eqn:Id; [now rewrite (is_dir_exists' _ _ Id)|].
     destruct (exists_ t d); simpl; [reflexivity|]. destruct dtr; reflexivity. }
-  rewrite Tg.
+  match goal with |- context [m_empty_b t ?X] => replace X with dst by (symmetry; exact Tg) end.
   assert (Shape : dst = d \/ (dst = d ++ [base (n :: s)] /\ is_file t d = false)).
   { unfold dst. destruct (is_dir t d) eqn:Id; [right; split; auto using is_dir_not_file|].
     destruct (exists_ t d) eqn:Ex; simpl; [now left|]. destruct dtr; [right; split; auto; now destruct (not_exists_not_file _ _ Ex)|now left]. }
@@ -177,29 +207,41 @@ Proof.
   assert (Wp : wf pre) by (unfold pre; apply wf_mkdirp; tauto).
   assert (Dp : is_dir pre (parent dst) = true) by (unfold pre; apply mkdirp_is_dir; try tauto; apply is_prefix_refl).
   assert (Ls : lookup pre (n :: s) = Some e) by (unfold pre; now apply lookup_mkdirp_some).
-  (* what is at the destination was there before the parents were created *)
   assert (Ld : lookup pre dst = lookup t dst).
   { unfold pre. apply lookup_mkdirp_other. destruct (is_prefix dst (parent dst)) eqn:E; auto. exfalso.
     pose proof (is_prefix_antisym _ _ E (is_prefix_parent dst)) as X. symmetry in X. revert X. now apply removelast_neq. }
   assert (PreT : exists_ t dst = true -> pre = t).
   { intros Ex. unfold pre. apply mkdirp_exists_id; auto. apply is_dir_exists'. now apply wf_parent_dir. }
   destruct (m_exists_pair t dst) as [h3 ->]. change (is_dir_b t (n :: s)) with (is_dir t (n :: s)). change (is_dir_b t dst) with (is_dir t dst).
-  unfold m_move_raw. fold m_move_raw. rewrite (path_eqb_sym (n :: s) dst), Eq.
-  destruct (m_mkdir3_ok t (parent dst) W (proj1 PreOk) (proj2 PreOk)) as [hm Mk]. fold pre in Mk. rewrite Mk.
-  unfold b_rename. rewrite Ls, Dp, P1. simpl negb. simpl orb. cbv iota. rewrite Ld.
+  destruct (m_mkdir3_ok t (parent dst) W (proj1 PreOk) (proj2 PreOk)) as [hm Mk]. fold pre in Mk.
+  rewrite Ld.
+  (* the move proper, once the guards are passed: MkDir of the parent, then the rename decides *)
+  assert (Raw : forall t2, b_rename pre (n :: s) dst = Some t2 ->
+                exists h, m_move_raw fa (S f) t (n :: s) dst = Some (ROk, t2, h)).
+  { intros t2 Hr. unfold m_move_raw. fold (m_move_raw fa). rewrite (path_eqb_sym (n :: s) dst), Eq, Mk, Hr. eauto. }
+  assert (Ren : forall X, (match lookup t dst, e with
+                           | None, _ => Some (rename_sub pre (n :: s) dst)
+                           | Some (F _), F c => Some (set_file (remove_sub pre (n :: s)) dst c)
+                           | Some D, D => match children pre dst with [] => Some (rename_sub (remove_sub pre dst) (n :: s) dst) | _ => None end
+                           | _, _ => None end) = X -> b_rename pre (n :: s) dst = X).
+  { intros X <-. unfold b_rename. rewrite Ls, Dp, P1, Ld. reflexivity. }
   destruct (lookup t dst) as [[c|]|] eqn:Lt; destruct e as [c'|]; try discriminate.
   - (* file over file *)
-    assert (Sd : is_dir t (n :: s) = false) by (unfold is_dir; now rewrite L). rewrite Sd. simpl andb. cbv iota.
-    intros H; inv_o H. eauto.
+    assert (Sd : is_dir t (n :: s) = false) by (unfold is_dir; now rewrite L). rewrite Sd. simpl.
+    intros H; inv_o H. destruct (Raw _ (Ren _ eq_refl)) as [h ->]. eauto.
   - (* directory over a directory *)
     assert (Sd : is_dir t (n :: s) = true) by (unfold is_dir; now rewrite L).
     assert (Dd : is_dir t dst = true) by (unfold is_dir; now rewrite Lt).
     assert (Ex : exists_ t dst = true) by (unfold exists_; now rewrite Lt).
-    rewrite Sd, Dd, Ex, (m_empty_b_dir' _ _ Lt), (PreT Ex). simpl andb.
-    destruct (children t dst) eqn:Ch; simpl negb; cbv iota; intros H; inv_o H; eauto.
+    rewrite Sd, Dd, Ex, (m_empty_b_dir' _ _ Lt). simpl. pose proof (PreT Ex) as Ept.
+    assert (Chp : children pre dst = children t dst) by (now rewrite Ept).
+    rewrite Chp in *.
+    destruct (children t dst) eqn:Ch; simpl; intros H; inversion H; subst r t'; clear H.
+    + destruct (Raw _ (Ren _ eq_refl)) as [h ->]. eauto.
+    + rewrite Ept. eauto.
   - (* nothing there: a file *)
     assert (Ex : exists_ t dst = false) by (unfold exists_; now rewrite Lt).
-    rewrite Ex, andb_false_r. simpl andb. cbv iota. intros H; inv_o H. eauto.
+    rewrite Ex, andb_false_r. simpl. intros H; inv_o H. destruct (Raw _ (Ren _ eq_refl)) as [h ->]. eauto.
   - assert (Ex : exists_ t dst = false) by (unfold exists_; now rewrite Lt).
-    rewrite Ex, andb_false_r. simpl andb. cbv iota. intros H; inv_o H. eauto.
+    rewrite Ex, andb_false_r. simpl. intros H; inv_o H. destruct (Raw _ (Ren _ eq_refl)) as [h ->]. eauto.
 Qed.
